@@ -228,7 +228,7 @@ class HeaderElement(with_metaclass(HeaderType)):
 
 	@classmethod
 	def decode_rfc2047_charset(cls, value: bytes) -> Tuple[str, str]:
-		if b'=?' in value and b'"=?' not in value and b'==?' not in value:
+		if b'=?' in value and b'"=?' not in value and not re.search(b'==\\?(?!=)', value):
 			# FIXME: must not parse encoded_words in unquoted ('Content-Type', 'Content-Disposition') header params
 			try:
 				return u''.join(atom if not isinstance(atom, bytes) else atom.decode(cls._sanitize_encoding(charset or 'ISO8859-1')) for atom, charset in decode_header(value.decode('ISO8859-1'))), 'UTF-8'
